@@ -94,6 +94,9 @@ def defects(d):
         r = d["ref"]
         emit("scale-on-ref-unit", a=replace(0, '#[ref_unit(%s, %s, 1.0)]' % (r["id"], catalogue.rust_str(r["sym"]))))
         emit("scale-and-prefix-on-ref-unit", a=replace(0, '#[ref_unit(%s, %s, KILO, 2)]' % (r["id"], catalogue.rust_str(r["sym"]))))
+        # ... also when the literal is zero, one in another spelling, or not finite as f64
+        for nm, lit in (("zero", "0.0"), ("integer-zero", "0"), ("one", "1"), ("overflowing", "1e999"), ("underflowing", "1e-400")):
+            emit("scale-on-ref-unit-%s" % nm, a=replace(0, '#[ref_unit(%s, %s, %s)]' % (r["id"], catalogue.rust_str(r["sym"]), lit)))
         # 4 unit without scale next to a reference unit
         emit("unit-without-scale", a=replace(first_unit, defgen.render_attr("unit", u0, with_lit=False)))
         emit("unit-with-prefix-but-no-scale", a=replace(first_unit, '#[unit(%s, %s, KILO)]' % (u0["id"], catalogue.rust_str(u0["sym"]))))
@@ -106,6 +109,8 @@ def defects(d):
     else:
         # 5 / 6 scale or prefix without any reference unit
         emit("scale-without-ref-unit", a=replace(0, '#[unit(%s, %s, 0.5)]' % (u0["id"], catalogue.rust_str(u0["sym"]))))
+        for nm, lit in (("zero", "0"), ("float-zero", "0.0"), ("one", "1.0"), ("overflowing", "1e999")):
+            emit("scale-without-ref-unit-%s" % nm, a=replace(0, '#[unit(%s, %s, %s)]' % (u0["id"], catalogue.rust_str(u0["sym"]), lit)))
         emit("prefix-without-ref-unit", a=replace(0, '#[unit(%s, %s, KILO)]' % (u0["id"], catalogue.rust_str(u0["sym"]))))
         emit("prefix-and-scale-without-ref-unit", a=replace(0, '#[unit(%s, %s, KILO, 1000)]' % (u0["id"], catalogue.rust_str(u0["sym"]))))
     # 7a/7b/8a wrong number / kind of unit arguments
